@@ -61,6 +61,11 @@ type Run struct {
 }
 
 func NewRun(prop, tier string, seed uint64, root string) *Run {
+	if old, _ := filepath.Glob(filepath.Join(root, "replays", fmt.Sprintf("%s-%s-%d-*.txt", prop, tier, seed))); old != nil {
+		for _, f := range old {
+			os.Remove(f)
+		}
+	}
 	return &Run{Prop: prop, Tier: tier, Seed: seed, Root: root, Start: time.Now(),
 		distinct: map[string]bool{}, Dist: map[string]int{}, Extra: map[string]interface{}{}}
 }
